@@ -3,6 +3,7 @@ import ast
 
 from ..astutil import norm, const, NO, compare, tail, names
 from ..index import AnalysisError, walk_own
+from ..absint import Explorer, UNKNOWN
 from .common import (site, key, calls_to, method_calls, nodes_with, guard_check, stores_to_name, cfg_attr, resp_var)
 
 GLOG = "gunicorn.glogging"
@@ -193,27 +194,37 @@ def r3(ctx):
     lg = repo.cls(GLOG + ".Logger")
     wc = lg.attrs.get("atoms_wrapper_class")
     ctx.check("C19.R3", wc is not None and repo.resolve(lg.module, None, wc) == GLOG + ".SafeAtoms", "atoms_wrapper_class", "gunicorn/glogging.py: Logger.atoms_wrapper_class", "Logger.atoms_wrapper_class is not SafeAtoms", "SafeAtoms")
+    # evaluated: SafeAtoms.__init__ run on atoms with line breaks and quotes -- whatever is stored for a str atom is on one line
     f = ctx.fn(repo.func(GLOG + ".SafeAtoms.__init__"))
     g = f.cfg
-    loop = [n for n in g.nodes if n.kind == "for"]
-    ctx.need(loop and isinstance(loop[0].ast.target, ast.Tuple), "C19.R3: SafeAtoms.__init__ does not iterate its atoms")
-    K, V = [x.id for x in loop[0].ast.target.elts]
     stores = [s for s in g.stmts(ast.Assign) if any(isinstance(t, ast.Subscript) and tail(t.value) == "self" for t in s.ast.targets)]
     ctx.need(stores, "C19.R3: SafeAtoms.__init__ stores nothing")
-    # str values: the store on the isinstance(value, str) path must neutralise CR and LF
-    strtests = [t for t in g.tests() if isinstance(t.ast, ast.Call) and isinstance(t.ast.func, ast.Name) and t.ast.func.id == "isinstance" and norm(t.ast.args[0]) == V and "str" in norm(t.ast.args[1])]
-    ctx.check("C19.R3", bool(strtests), key(f, "str-branch"), site(f), "SafeAtoms does not treat str atoms specially", "isinstance(value, str) branch")
-    for t in strtests:
-        on_str = [s for s in stores if s in g.reachable([(t, "true")], follow_exc=False, stop=lambda n: n is loop[0]) and s not in g.reachable([(t, "false")], follow_exc=False, stop=lambda n: n is loop[0])]
-        raw = [s for s in stores if s in g.reachable([(t, "true")], follow_exc=False, stop=lambda n: n is loop[0]) and s not in on_str]
-        bad = []
-        for s in on_str:
-            nz = _neutralised(s.ast.value, V)
-            if nz != "ALL" and not ({"\r", "\n"} <= nz):
-                bad.append((s, nz))
-        for s in raw:
-            bad.append((s, set()))
-        ctx.check("C19.R3", bool(on_str) and not bad, key(f, "crlf-neutralised"), site(f, (bad[0][0] if bad else on_str[0]) if (bad or on_str) else None),
-                  "str atoms are stored after neutralising only %s: CR and LF pass through. Atoms decoded *after* the parser's checks carry raw line breaks into the log line "
+    AT = f.params[1] if len(f.params) > 1 else "atoms"
+    samples = {"h": "plain", "U": "/a\r\nb", "u": "eve\n10.0.0.1 - admin", "r": "GET /x\rHTTP/1.1", "q": 'say "hi"', "{x}e": "\r", "{y}i": "\n\n", "b": 5, "T": None}
+
+    def store_probe(st):
+        def probe(ex, env):
+            t = [x for x in st.ast.targets if isinstance(x, ast.Subscript)][0]
+            return (ex.ev(t.slice, env), ex.ev(st.ast.value, env))
+        return probe
+    probes = {s_.id: ("store@%d" % i, store_probe(s_)) for i, s_ in enumerate(stores)}
+    ex = Explorer(f, max_states=200000)
+    outs = ex.run(g.entry, {ex.key_of(ast.Name(id=AT, ctx=ast.Load())): samples}, probes=probes)
+    ctx.need([o for o in outs if o.kind == "return"], "C19.R3: SafeAtoms.__init__ has no normal outcome on sample atoms")
+    for o in outs:
+        if o.kind != "return":
+            continue
+        got = {}
+        unknown = False
+        for nm, v in o.events:
+            if isinstance(nm, str) and nm.startswith("store@"):
+                if v == "U" or not isinstance(v, tuple) or v[1] is UNKNOWN or v[0] is UNKNOWN:
+                    unknown = True
+                else:
+                    got.setdefault(v[0], set()).add(v[1])
+        bad = sorted(k for k, vs in got.items() if isinstance(samples.get(k), str) and any(not isinstance(v, str) or "\r" in v or "\n" in v for v in vs))
+        lost = sorted(k for k in samples if k not in got)
+        ctx.check("C19.R3", not bad and not unknown and not lost and got.get("h") == {"plain"}, key(f, "crlf-neutralised"), site(f, stores[0]),
+                  "SafeAtoms stores str atoms with raw line breaks (%s; not stored: %s; undetermined: %s): atoms decoded *after* the parser's checks carry CR / LF into the log line "
                   "(`U` = percent-decoded path '%%0a', `u` = base64-decoded basic-auth user, `{..}e`, `r` with a bare LF in the target): one request fabricates extra access-log records" % (
-                      sorted(bad[0][1]) if bad else []), "CR and LF neutralised for every str atom")
+                      bad, lost, unknown), "CR and LF neutralised for every str atom")
